@@ -21,9 +21,9 @@ func init() {
 		ID:    "C19",
 		Level: "exploration",
 		Rule: "(pure) the two decision functions (verif export) vs a reference written from the documented rules, EXHAUSTIVELY over suppression x timestamps from a 5-point ordered domain x inflight {0,1,2} x fails 0..4; " +
-			"then the whole failure-accounting loop folded over ALL observation histories of length <= 6 (quick) / <= 7 (thorough) over an 8-symbol observation alphabet x threshold 1..4 x suppression on/off, real reducer vs reference fold " +
+			"then the whole failure-accounting loop folded over ALL observation histories of length <= 6 (quick) / <= 8 (thorough) over an 8-symbol observation alphabet x threshold 1..4 x suppression on/off, real reducer vs reference fold " +
 			"(disconnect index and credit count), plus the two spec-level invariants (suppression off: disconnect exactly at the threshold-th consecutive timeout; on: never at an observation that showed life). " +
-			"(e2e) scripted peers on real connections (interval 150 ms, T6 100 ms, threshold 1..3): silent, answering, alive-but-not-answering with suppression on and off, chatty, withheld reply. " +
+			"(e2e) scripted peers on real connections (interval 150 ms, T6 100 ms, threshold 1..3): silent, silent while the local side keeps sending, answering, alive-but-not-answering with suppression on and off, alive with a data handler that outlasts T6 (interval 200 ms, T6 300 ms), chatty, withheld reply. " +
 			"distinct = hash(history or scenario); non-trivial = history with at least one timeout / every scenario.",
 		Assumptions: []string{
 			"'life' = a frame received after the probe was sent, or a reply outstanding (the documented suppression rules); the reference fold is written from those rules, not from the code",
@@ -181,7 +181,7 @@ func c19Pure(env *fw.Env) {
 		env.Eval(fw.HashStr("recheck-grid"), true)
 	}
 	// ---- the fold over all histories ----
-	maxLen := env.Pick(6, 7)
+	maxLen := env.Pick(6, 8)
 	a := len(c19Alphabet)
 	var idx int64
 	for n := 1; n <= maxLen; n++ {
